@@ -4,7 +4,7 @@ From NDN Require Import Base.Prelude Model.SignerSizes Model.PacketEnc.
 From NDN Require Generated.SignerSizes.
 Import ListNotations.
 Local Open Scope N_scope.
-Set Default Timeout 120.
+Set Default Timeout 900.
 
 Lemma der_int_len_bound b x : 0 < b -> x < 2 ^ b -> der_int_len x <= b / 8 + 1.
 Proof.
